@@ -143,6 +143,9 @@ func GenCancelWorld(ch *Choices, thorough bool) *IntegWorld {
 		}
 		t.Cond = ch.Bool(1, 6, "cond")
 		t.Allow = ch.Bool(1, 4, "allow")
+		if ch.Bool(1, 3, "has-timeout") {
+			t.TimeoutMS = 600000 // never expires in these worlds; cancellation must still get through
+		}
 		if nctx > 0 && ch.Bool(1, 2, "in-ctx") {
 			t.Context = w.Contexts[ch.Choose(nctx, "which-ctx")].Name
 		}
@@ -226,6 +229,7 @@ func runFaultJob(c *Ctl, job *Job, idx int, res *RunResult) {
 		prof.WFault = 4
 		prof.UseRunEnter = true
 		prof.UseStageStart = true
+		prof.LogYield = true
 		if world%3 == 0 {
 			prof.CancelVia = "scheduler"
 		} else {
@@ -338,6 +342,9 @@ func GenContextWorld(ch *Choices, thorough bool) *IntegWorld {
 		for _, p := range taskPositions(t) {
 			pl := &ExecPlan{DurMS: ch.Choose(60, "dur")}
 			if p.block == "cmd" && ch.Bool(1, 6, "cmd-fails") {
+				pl.Exit = genExit(ch)
+			}
+			if p.block == "before" && ch.Bool(1, 4, "before-fails") {
 				pl.Exit = genExit(ch)
 			}
 			w.Plans[execID(nm, p.block, p.idx, p.v)] = pl
